@@ -696,7 +696,18 @@ func (v *Verifier) VerifyFunction(fn *ssa.Function, fc *FuncContract) (err error
 	for _, name := range sortedKeys(v.contracts.ghosts) {
 		g := v.contracts.ghosts[name]
 		ev := &Eval{v: v, st: st, pkg: fnPkg(fn)}
-		st.ghost[name] = namedValue("ghost!"+name, ev.resolveType(g.Typ))
+		gv := namedValue("ghost!"+name, ev.resolveType(g.Typ))
+		if isMap(gv.T) {
+			// ghost maps exist and are pairwise distinct objects
+			st.assume(Gt(gv.term(), Int(0)))
+			st.assume(Le(gv.term(), st.wm))
+			for _, other := range sortedKeys(st.ghost) {
+				if o := st.ghost[other]; isMap(o.T) {
+					st.assume(Neq(gv.term(), o.term()))
+				}
+			}
+		}
+		st.ghost[name] = gv
 	}
 	st.frame = nil
 	// preconditions
@@ -739,7 +750,7 @@ func (v *Verifier) VerifyFunction(fn *ssa.Function, fc *FuncContract) (err error
 		if len(e.results) == 1 {
 			ev.env["result"] = e.results[0]
 		}
-		if n := rs.Len(); n >= 1 && n <= len(e.results) && rs.At(n-1).Name() == "" && typeName(rs.At(n-1).Type()) == "error" {
+		if n := rs.Len(); n >= 1 && n <= len(e.results) && ev.env["err"] == nil && v.entryArgs["err"] == nil && typeName(rs.At(n-1).Type()) == "error" {
 			ev.env["err"] = e.results[n-1]
 		}
 		if clo != nil {
